@@ -236,7 +236,7 @@ def gen(rng, tier):
                 ex.append("c20pre %d %d %d %s" % (rng.range(0, (1 << 62)), k, n, " ".join(gen_weights(rng, n, kind))))
     streams.append(("all-k-n-small", ex))
     rnd = []
-    cnt = 1500 if tier == "quick" else 40000
+    cnt = 4000 if tier == "quick" else 60000
     for _ in range(cnt):
         n = rng.choice([1, 2, 3, 7, 16, 33, 64, rng.range(1, 64)])
         k = rng.choice([1, n, max(1, n - 1), rng.range(1, n)])
@@ -260,7 +260,7 @@ def gen(rng, tier):
     # ties: weights 0 and +Inf are OUTSIDE the property's domain; they make keys tie at
     # -Inf / +Inf and exercise the tie handling of code and model (compare only, no monitors)
     ties = []
-    cnt = 300 if tier == "quick" else 6000
+    cnt = 800 if tier == "quick" else 10000
     for _ in range(cnt):
         n = rng.choice([2, 3, 5, 8, 20, rng.range(1, 64)])
         k = rng.choice([1, n, rng.range(1, n)])
@@ -283,7 +283,7 @@ STAT_VECTORS = [
 
 
 def stat_cases(rng, tier):
-    trials = 120000 if tier == "quick" else 2000000
+    trials = 200000 if tier == "quick" else 3000000
     return [("c20stat %d %d %s" % (rng.range(0, 1 << 62), trials, " ".join(ws)), name) for name, ws in STAT_VECTORS]
 
 
